@@ -22,14 +22,21 @@
 (* It is sharp for quiescent scripts (nothing else happens in the window); *)
 (* an input inside the window cancels the pending judgement (soft).        *)
 (*                                                                         *)
-(* params: [kind |-> "switch"|"fork", sk, win, ageoff,                      *)
+(* kind "term": the key sk carries a composite action term of             *)
+(* ActionTerms.tla (a fork / switch whose branches are keys, v1 chord      *)
+(* placeholders, multi, tap-hold, tap-dance, nested fork / switch); the    *)
+(* expected output keys are HeldOut(term, current state): the scripts hold *)
+(* the key through the window.                                             *)
+(*                                                                         *)
+(* params: [kind |-> "switch"|"fork"|"term", sk, win, ageoff,               *)
 (*          cases |-> Seq([cond, ac, brk]),   (switch; ac = output code)    *)
 (*          trig, left, right,                (fork)                        *)
 (*          acs |-> Seq(code)  the action output codes (used by nothing     *)
 (*                             else in the configuration),                  *)
-(*          lk, ll  layer-while-held key code (0 = none) and its layer]     *)
+(*          lk, ll  layer-while-held key code (0 = none) and its layer,     *)
+(*          term    (kind "term") the action term of sk]                    *)
 (***************************************************************************)
-EXTENDS Obs, Switch
+EXTENDS Obs, ActionTerms
 
 CapAge(a) == IF a > 65535 THEN 65535 ELSE a
 AgeAll(h, n) == [i \in DOMAIN h |-> [h[i] EXCEPT !.age = CapAge(@ + n)]]
@@ -52,6 +59,7 @@ EnvNow(m) ==
 Expected(m) ==
   IF m.p.kind = "fork"
   THEN IF \E i \in DOMAIN m.p.trig : m.p.trig[i] \in m.down THEN <<m.p.right>> ELSE <<m.p.left>>
+  ELSE IF m.p.kind = "term" THEN HeldOut(m.p.term, EnvNow(m))
   ELSE DenoteCases(m.p.cases, EnvNow(m))
 \* "current" = when the press is acted upon: the tick after the press; within that tick, after the
 \* OS events that precede the first action key (kanata may first release an output chord such as
